@@ -1,4 +1,4 @@
-FIX_COMMITS = ['75e0c35', 'c148090', 'f1d3e96', '2191062', '2a30adc', 'dead8ae', '09d65ec', 'cb13934', '39255ec', 'aea5bfd', 'ba4a076', 'c913951', '9e54e78', '4191a8b', 'e96a447', '4a5e29a', 'a70bc2e', 'f1b18c6']
+FIX_COMMITS = ['75e0c35', 'c148090', 'f1d3e96', '2191062', '2a30adc', 'dead8ae', '09d65ec', 'cb13934', '39255ec', 'aea5bfd', 'ba4a076', 'c913951', '9e54e78', '4191a8b', 'e96a447', '4a5e29a', 'a70bc2e', 'f1b18c6', '1763a12']
 CHECKS = {
  "C06": {
   "category": "proof",
